@@ -26,7 +26,7 @@ def Inv (s : Sys) : Prop :=
 
 /-- The guarantee of one cycle. -/
 def Good (s : Sys) (i : AxlM × WbOracle) : Prop :=
-  s.g.rspHeld (sysOut c s i).1 ∧ s.g.memOk c.nb (wbAdr c) i.1 (sysOut c s i).1 ∧
+  s.g.rspHeld (sysOut c s i).1 ∧ s.g.memOk (byteRd c.nb (wbAdr c)) i.1 (sysOut c s i).1 ∧
   (s.br.st ≠ .sendB → s.mem = s.g.ref)
 
 theorem step (s : Sys) (i : AxlM × WbOracle) (hinv : Inv c s) (hok : s.g.reqHeld i.1) :
@@ -35,7 +35,7 @@ theorem step (s : Sys) (i : AxlM × WbOracle) (hinv : Inv c s) (hok : s.g.reqHel
   obtain ⟨⟨awvalid, awaddr, wvalid, wdata, wstrb, bready, arvalid, araddr, rready⟩, ⟨ack, junk⟩⟩ := i
   cases st <;>
     simp only [Inv, Good, sys, sysOut, toSlave, toMaster, next, wbMemRsp, wbMemNext, AxlGhost.next,
-      AxlGhost.rspHeld, AxlGhost.memOk, AxlGhost.reqHeld, AxlS.idle, WbM.idle, WbM.active] at hinv hok ⊢
+      AxlGhost.rspHeld, AxlGhost.memOk, AxlGhost.reqHeld, AxlS.idle, WbM.idle, WbM.active, byteRd, byteWr] at hinv hok ⊢
   case idle =>
     cases awvalid <;> cases arvalid <;> cases last <;> simp_all
   case doRead =>
@@ -90,5 +90,31 @@ theorem ostep (s : OSys) (i : AxlM × WbS) (hinv : OInv c s) (hok : s.g.reqHeld 
   case sendB =>
     obtain ⟨h1, h2, h3⟩ := hinv
     rcases h3 with h3 | h3 <;> cases bready <;> simp_all [respOkay]
+
+/-! ### read/write alternation -/
+
+def FInv (s : FSys) : Prop :=
+  s.wOver ≤ 1 ∧ s.rOver ≤ 1 ∧
+  (s.wOver = 1 → (s.br.st ≠ .doRead → s.br.last = false) ∧ s.g.heldAR.isSome ∧ s.br.st ≠ .sendR) ∧
+  (s.rOver = 1 → (s.br.st ≠ .doWrite → s.br.last = true) ∧ s.g.heldAW.isSome ∧ s.br.st ≠ .sendB) ∧
+  (s.br.st = .doRead → s.g.heldAR.isSome) ∧ (s.br.st = .doWrite → s.g.heldAW.isSome)
+
+theorem fstep (s : FSys) (i : AxlM × WbS) (hinv : FInv s) (hok : s.g.reqHeld i.1) :
+    FInv ((fsys c).next s i) := by
+  obtain ⟨⟨st, data, last⟩, ⟨heldAW, heldW, heldAR, heldB, heldR, pendAW, pendW, pendAR, ref⟩, wOver, rOver⟩ := s
+  obtain ⟨⟨awvalid, awaddr, wvalid, wdata, wstrb, bready, arvalid, araddr, rready⟩, ⟨ack, datr, err⟩⟩ := i
+  simp only [FInv] at hinv
+  obtain ⟨h1, h2, h3, h4, h5, h6⟩ := hinv
+  have hw : wOver = 0 ∨ wOver = 1 := by omega
+  have hr : rOver = 0 ∨ rOver = 1 := by omega
+  clear h1 h2
+  rcases hw with hw | hw <;> rcases hr with hr | hr <;> subst hw <;> subst hr <;> cases st <;>
+    simp only [FInv, fsys, toSlave, toMaster, next, AxlGhost.next, AxlGhost.reqHeld, AxlS.idle] at h3 h4 h5 h6 hok ⊢ 
+  all_goals (simp at h3 h4 h5 h6)
+  case inl.inl.idle => cases awvalid <;> cases arvalid <;> cases last <;> cases heldAR <;> cases heldAW <;> simp_all
+  case inl.inr.idle => cases awvalid <;> cases arvalid <;> cases last <;> cases heldAR <;> cases heldAW <;> simp_all
+  case inr.inl.idle => cases awvalid <;> cases arvalid <;> cases last <;> cases heldAR <;> cases heldAW <;> simp_all
+  case inr.inr.idle => cases awvalid <;> cases arvalid <;> cases last <;> cases heldAR <;> cases heldAW <;> simp_all
+  all_goals (cases ack <;> cases rready <;> cases bready <;> cases heldAR <;> cases heldAW <;> simp_all)
 
 end Litex.Bridge.Axl2Wb
